@@ -133,4 +133,103 @@ theorem accumulate_eq_totals (nBins : Nat) (c : Cat) (cs : List Cat) :
   rw [binCounts_rebind, foldl_addVec]
   simp [cnt]
 
+/-! ### round 4: single calls of `__next__` and passes that stop half-way (`nextN`) -/
+
+/-- one call of `__next__` on an in-memory list positioned behind `pre` with a catalog left -/
+theorem next_list_yield (pre : List Cat) (c : Cat) (rest : List Cat) (st : St)
+    (hg : st.isGen = false) (hc : st.catalogs = pre ++ c :: rest) (hi : st.idx = pre.length)
+    (hn : st.nCat = some (pre ++ c :: rest).length) :
+    (next st).1 = { st with catalogs := pre ++ fstep st.applyFilters c :: rest, idx := pre.length + 1,
+                            eventCounts := ecEff st ++ [(fstep st.applyFilters c).events.length] } := by
+  obtain ⟨file, catalogs, isGen, cache, store, af, nCat, idx, ec, er, nb, nm⟩ := st
+  simp only at hg hc hi hn
+  subst hg hc hi hn
+  by_cases hp : pre = []
+  · subst hp
+    simp [next, emit, ecEff, fstep]
+  · have hl : pre.length ≠ 0 := fun h => hp (List.eq_nil_of_length_eq_zero h)
+    have hlt : ¬ pre.length + (rest.length + 1) ≤ pre.length := by omega
+    simp [next, emit, ecEff, fstep, hl, hlt]
+
+/-- `mid.length + 1` calls of `__next__` on an in-memory list: the catalogs passed are filtered in place, the cursor
+    stands behind them, their counts are recorded -/
+theorem nextN_list : ∀ (mid : List Cat) (c : Cat) (pre post : List Cat) (st : St),
+    st.isGen = false → st.catalogs = pre ++ c :: mid ++ post → st.idx = pre.length →
+    st.nCat = some (pre ++ c :: mid ++ post).length →
+    nextN (mid.length + 1) st = { st with
+      catalogs := pre ++ (c :: mid).map (fstep st.applyFilters) ++ post, idx := pre.length + (mid.length + 1),
+      eventCounts := ecEff st ++ ((c :: mid).map (fstep st.applyFilters)).map (·.events.length) }
+  | [], c, pre, post, st, hg, hc, hi, hn => by
+    have h := next_list_yield pre c post st hg (by simpa using hc) hi (by simpa using hn)
+    simp only [nextN, List.length_nil, Nat.zero_add, h, List.map_cons, List.map_nil]
+    simp
+  | d :: mid, c, pre, post, st, hg, hc, hi, hn => by
+    have h := next_list_yield pre c (d :: mid ++ post) st hg (by simpa using hc) hi (by simpa using hn)
+    have ih := nextN_list mid d (pre ++ [fstep st.applyFilters c]) post (next st).1
+      (by rw [h]; exact hg) (by rw [h]; simp) (by rw [h]; simp)
+      (by rw [h]; simp only [hn]; simp)
+    rw [show (d :: mid).length + 1 = (mid.length + 1) + 1 from rfl, nextN, ih, h]
+    simp [ecEff, Nat.add_assoc, Nat.add_comm 1]
+
+/-- one call of `__next__` on a generator that has a catalog left -/
+theorem next_gen_yield (c : Cat) (rest : List Cat) (st : St) (hg : st.isGen = true) (hc : st.catalogs = c :: rest) :
+    (next st).1 = { st with catalogs := rest, idx := st.idx + 1,
+                            eventCounts := ecEff st ++ [(fstep st.applyFilters c).events.length],
+                            cache := if st.store then st.cache ++ [fstep st.applyFilters c] else st.cache } := by
+  obtain ⟨file, catalogs, isGen, cache, store, af, nCat, idx, ec, er, nb, nm⟩ := st
+  simp only at hg hc
+  subst hg hc
+  by_cases h0 : idx = 0 <;> cases store <;> simp [next, emit, ecEff, fstep, h0]
+
+theorem nextN_gen : ∀ (mid : List Cat) (c : Cat) (post : List Cat) (st : St),
+    st.isGen = true → st.catalogs = c :: mid ++ post →
+    nextN (mid.length + 1) st = { st with
+      catalogs := post, idx := st.idx + (mid.length + 1),
+      eventCounts := ecEff st ++ ((c :: mid).map (fstep st.applyFilters)).map (·.events.length),
+      cache := if st.store then st.cache ++ (c :: mid).map (fstep st.applyFilters) else st.cache }
+  | [], c, post, st, hg, hc => by
+    have h := next_gen_yield c post st hg (by simpa using hc)
+    simp only [nextN, List.length_nil, Nat.zero_add, h, List.map_cons, List.map_nil]
+  | d :: mid, c, post, st, hg, hc => by
+    have h := next_gen_yield c (d :: mid ++ post) st hg (by simpa using hc)
+    have ih := nextN_gen mid d post (next st).1 (by rw [h]; exact hg) (by rw [h])
+    rw [show (d :: mid).length + 1 = (mid.length + 1) + 1 from rfl, nextN, ih, h]
+    cases hs : st.store <;> simp [ecEff, Nat.add_assoc, Nat.add_comm 1]
+
+/-! ### round 4: the three configured filters of `__next__` -/
+
+/-- applying the configured filters one after the other keeps exactly the events that satisfy the conjunction of the
+    configured predicates, in their original order -/
+theorem filtSeq_events (cfg : Cfg) (c : RCat) : (filtSeq cfg c).events = c.events.filter (keepOf cfg) := by
+  obtain ⟨hf, hm, hs⟩ := cfg
+  have hk : ∀ cfg : Cfg, keepOf cfg =
+      fun e => (!cfg.hasFilters || e.pf) && (!cfg.applyMct || e.pm) && (!cfg.filterSpatial || e.ps) := fun _ => rfl
+  cases hf <;> cases hm <;> cases hs <;> (simp [filtSeq, hk, List.filter_filter]) <;>
+    first
+    | (apply List.filter_congr; intro e _; cases e.pf <;> cases e.pm <;> cases e.ps <;> rfl)
+    | (symm; rw [List.filter_eq_self]; intros; rfl)
+
+/-- nothing but the events is touched -/
+theorem filtSeq_payload (cfg : Cfg) (c : RCat) :
+    (filtSeq cfg c).id = c.id ∧ (filtSeq cfg c).grid = c.grid ∧ (filtSeq cfg c).carries = c.carries := by
+  obtain ⟨hf, hm, hs⟩ := cfg
+  cases hf <;> cases hm <;> cases hs <;> simp [filtSeq]
+
+theorem filtSeq_eq (cfg : Cfg) (c : RCat) : filtSeq cfg c = { c with events := c.events.filter (keepOf cfg) } := by
+  have h1 := filtSeq_events cfg c
+  obtain ⟨h2, h3, h4⟩ := filtSeq_payload cfg c
+  cases h : filtSeq cfg c
+  simp_all
+
+/-- the abstraction commutes with filtering: the abstract `filt` IS the code's filter sequence -/
+theorem absCat_filtSeq (cfg : Cfg) (c : RCat) : absCat cfg (filtSeq cfg c) = filt (absCat cfg c) := by
+  rw [filtSeq_eq]
+  simp only [absCat, filt, List.filter_map]
+  congr 1
+
+/-- the filter sequence is idempotent (each filter works in place on what the previous pass left) -/
+theorem filtSeq_idem (cfg : Cfg) (c : RCat) : filtSeq cfg (filtSeq cfg c) = filtSeq cfg c := by
+  rw [filtSeq_eq, filtSeq_eq]
+  simp [List.filter_filter]
+
 end ForecastIter
